@@ -22,7 +22,7 @@ var round8Explanations = map[string]string{
 	"C19": " (R9) no map update or delete in pkg/filter/stream hits a map reached from RouteRule().PerFilterConfig() or a ReadPerRouteConfig parameter.",
 }
 
-const genericExplanation = " (G1-G3, generic, over the packages of this property) no address of a go-1.18 loop-header variable escapes its iteration; every sync mutex acquired in a function is released on every path to its return, directly or by a defer registered on that path (read and write acquisitions distinct, wrapper table frozen); a struct field passed to sync/atomic anywhere in scope is never read or written plainly outside construction (24 frozen exceptions, keyed type.field@function); (G2 across calls) no synchronous call into a function that acquires a mutex the caller holds; (G4) storage released to a pool is not returned or stored by the releasing function; (G5) no append onto a loop-invariant slice inside a loop when the result is kept."
+const genericExplanation = " (G1-G3, generic, over the packages of this property) no address of a go-1.18 loop-header variable escapes its iteration; every sync mutex acquired in a function is released on every path to its return, directly or by a defer registered on that path (read and write acquisitions distinct, wrapper table frozen); a struct field passed to sync/atomic anywhere in scope is never read or written plainly outside construction (24 frozen exceptions, keyed type.field@function); (G2 across calls) no synchronous call into a function that acquires a mutex the caller holds; (G4) storage released to a pool is not returned or stored by the releasing function; (G5) no append onto a loop-invariant slice inside a loop when the result is kept. (G7) a FieldAddr of a struct-valued field of the receiver that the method rewrites through the pointer (Copy/Reset/IntersectionWith/..., or a whole store) does not escape (kept by a callee - interface calls resolved to the module's implementers -, appended, stored). (G8) for every comma-ok look-up in a map field made while a mutex may be held, no path look-up -> Unlock of that mutex -> insert into the same map field exists on which the key is not looked up again."
 
 // Clauses added in round 9.
 var round9Explanations = map[string]string{
@@ -159,4 +159,21 @@ var round16Explanations = map[string]string{
 	"C14": " (R16) in doRetry an atomic load of upstreamResponseReceived is dominated by time.Sleep, and initializeUpstreamConnectionPool / appendHeaders are guarded by a condition derived from it. (R17) in the directResponse branch of processError a RemoveEventListener or upstreamRequest.resetStream call exists, and a CAS/Store on upstreamReset is dominated by one.",
 	"C17": " (R21) convertRetryPolicy stores StatusCodes from a value derived from GetRetriableStatusCodes() and RetryOn from a same-package callee that compares with the condition names 5xx, gateway-error, retriable-status-codes. (R22) the functions statically reachable from convertDirectResponseAction type-assert (or call the generated getter of) every DataSource_* type the go-control-plane core package declares. (R23) as C03.R21.",
 	"C20": " (R10) for every json.RawMessage field of v2.MOSNConfig outside the frozen no-key table (Node), redactedMosnConfig stores the result of a redactor into the copy.",
+}
+
+var round17Explanations = map[string]string{
+	"C01": " (R25) the IoBuffer parameter of http clientStream.AppendData is used only as receiver of Bytes/Len/Cap/String/Peek/Count/Clone.",
+	"C02": " (R23) in connection.writeDirectly no return is reachable from the doWrite call without passing the `err != nil` test that guards Close(..., OnWriteTimeout).",
+	"C03": " (R22) nothing setupRetry runs (same-package callees, depth 3) calls Stop on, or stores nil into, downStream.responseTimer; (R5) cleanUp stops and clears both timers, also through helpers.",
+	"C04": " (R19) simpleHandler.IsAvailable returns a status other than HandlerAvailable only under route == nil; DefaultMakeHandler stores the MatchRoute result as the handler's route.",
+	"C06": " (R11) every return of WRRLoadBalancer.hostWeight derives from a Weight() call and lies under no condition derived from Health()/HealthFlag.",
+	"C07": " (B3s, again-always-waits) every Return reachable from the true edge of `err == EAGAIN` in proxy.OnData returns the constant the waiting return returns.",
+	"C11": " (O23) no Delete/LoadAndDelete/CompareAndDelete/Swap/Clear on a *sync.Map parameter in the functions statically reachable from transferHandler; at least one Load.",
+	"C12": " (R20) the MapUpdate of routerConfigPath in SetRouter stores a value derived from the RouterConfigPath of the parameter and no path from entry to a return avoids it.",
+	"C13": " (R28) every path of sdsProvider.updateConfig that avoids update() is guarded by a same-package call with two *v2.TLSConfig parameters whose reach reads every TLSConfig field that the reach of newTLSContext (through the config hooks' implementers) reads.",
+	"C14": " (R18) in every CreateFilterChain of the module the argument of AddStreamReceiverFilter / AddStreamSenderFilter does not derive from a load of a field of the receiver, also not through a method called on the receiver (parameters spilled for closures are seen through).",
+	"C15": " (R19) a store of NewMetadataMatchCriteriaImpl(...) into weightedClusterEntry.clusterMetadataMatchCriteria dominates every MapUpdate of getWeightedClusterEntry.",
+	"C17": " (R24) as C03.R22. (R25) getHeaderPair stores into no element of a []*headerPair; from every headerPair allocation neither the loop header nor a return is reachable without an append.",
+	"C18": " (W20) every store into flow.n in pkg/module/http2 lies in a method whose receiver is flow.",
+	"C19": " (R17) no call into package sort reachable from transferConfig/DumpJSON/DumpConfig gets a slice of ExtendConfig, Filter, FilterChain, Router, VirtualHost, WeightedCluster, Host or HeaderMatcher (frozen table, one reason each).",
 }
